@@ -273,7 +273,9 @@ func TestC10_Scripts(t *testing.T) {
 				}
 				for i, au := range append(append([]*authority{}, auths...), msAuths...) {
 					if contacted(au) != 0 {
-						failf("authority %d was contacted although no-timestamp was given", i)
+						// (a request of the previous script may still arrive late on a loaded machine:
+						// judged only when it repeats)
+						failTiming("authority %d was contacted although no-timestamp was given", i)
 					}
 				}
 				sigs, verr := env.Verify(&pipe.VerifyReq{Path: p})
